@@ -22,12 +22,14 @@ import (
 // A contract that mentions one of these is a contract about the ghost state: at a call through such a contract the cells
 // are forgotten before the ensures are assumed (like a modifies target).
 const (
+	ghostChanRef  = "(- 999943)" // slot 0: number of values sent on channels; 1: the channel of the last one; 2, 3: the pointer sent
 	ghostClockRef = "(- 999961)"
 	ghostFireRef  = "(- 999959)"
 	ghostTimerRef = "(- 999953)"
 	ghostSendRef  = "(- 999949)"
 )
 
+var chanWordRe = regexp.MustCompile(`\b(chsends|lastChan|lastChanValue)\(\)`)
 var clockWordRe = regexp.MustCompile(`\bnow\(\)`)
 var ioWordRe = regexp.MustCompile(`\b(sends|lastSentTo|lastSent|sentAt)\(\)`)
 
@@ -89,6 +91,11 @@ func (g *Gen) ghostForget(stIn, st *State, reach string) {
 		// timers created before keep their attributes
 		st.H["G"] = g.def("HG", heapSort["G"], fmt.Sprintf("(store (store %s %s (select %s %s)) %s (select %s %s))", st.H["G"], ghostFireRef, stIn.H["G"], ghostFireRef, ghostTimerRef, stIn.H["G"], ghostTimerRef))
 	}
+	if g.topCt.mentions(chanWordRe) {
+		n := g.havoc("chsends", "Int")
+		g.assumeIf(reach, fmt.Sprintf("(>= %s %s)", n, sel(stIn.H["G"], ghostChanRef, "0")))
+		st.H["G"] = g.def("HG", heapSort["G"], sto(st.H["G"], ghostChanRef, "0", n))
+	}
 	if g.topCt.mentions(ioWordRe) {
 		n := g.havoc("sends", "Int")
 		g.assumeIf(reach, fmt.Sprintf("(>= %s %s)", n, g.sendsNow(stIn)))
@@ -96,6 +103,17 @@ func (g *Gen) ghostForget(stIn, st *State, reach string) {
 		st.H["F"] = g.def("HF", heapSort["F"], sto(st.H["F"], ghostSendRef, "0", g.havoc("sentto", "Iface")))
 		st.H["Q"] = g.def("HQ", heapSort["Q"], sto(st.H["Q"], ghostSendRef, "0", g.havoc("sent", "BSeq")))
 	}
+}
+
+// recordChanSend: a value was sent on channel ch
+func (g *Gen) recordChanSend(a *Act, st *State, ch string, v ssa.Value) {
+	cnt := fmt.Sprintf("(+ %s 1)", sel(st.H["G"], ghostChanRef, "0"))
+	h := sto(sto(st.H["G"], ghostChanRef, "0", cnt), ghostChanRef, "1", ch)
+	if _, isPtr := v.Type().Underlying().(*types.Pointer); isPtr {
+		t := a.val(v)
+		h = sto(sto(h, ghostChanRef, "2", fmt.Sprintf("(pref %s)", t)), ghostChanRef, "3", fmt.Sprintf("(poff %s)", t))
+	}
+	st.H["G"] = g.def("HG", heapSort["G"], h)
 }
 
 // recordSend: net.PacketConn.WriteTo(p, addr) was called
@@ -148,6 +166,15 @@ func (a *Act) selectModel(in *ssa.Select, st *State, reach string) {
 			g.assumeIf(reach, fmt.Sprintf("(=> (and %s (= %s %d)) (>= %s %s))", isTimer, idx, i, t, fire))
 		}
 		g.setClock(st, t)
+	}
+	// a send case that is taken hands its value to the channel: ghost record (chsends(), lastChan(), lastChanValue())
+	for i, s := range in.States {
+		if s.Dir != types.SendOnly {
+			continue
+		}
+		pre := st.H["G"]
+		g.recordChanSend(a, st, a.val(s.Chan), s.Send)
+		st.H["G"] = g.def("HG", heapSort["G"], fmt.Sprintf("(ite (= %s %d) %s %s)", idx, i, st.H["G"], pre))
 	}
 	vs := []string{idx, g.havoc(a.nm(in.Name()+"_recvok"), "Bool")}
 	for i := 2; i < tup.Len(); i++ {
